@@ -59,7 +59,7 @@ theorem rloop_spec (P : Params) (hP : P.Ok) (fut : Nat → Nat) :
             simp [this]
           · exact h0
         obtain ⟨items1, rs1, hd1, hd2, hd3, hd4⟩ :=
-          rdata_spec P P.sizeMax buf.length tw fut buf acc rfl hle rs ws items _ hrel hitems
+          rdata_spec P P.sizeMax buf.length tw fut buf acc rfl hle rs ws items _ hrel hbound hitems
         have hws1 : ∀ w ∈ (if tw > 0 then ws.map (· + tw) else ws), w ≤ P.sizeMax := by
           simp only [hpos, ↓reduceIte, List.mem_map]
           rintro w ⟨x, hx, rfl⟩
@@ -83,7 +83,7 @@ theorem rloop_spec (P : Params) (hP : P.Ok) (fut : Nat → Nat) :
         obtain ⟨x, hx, hxge⟩ := hsome u rfl
         have hu : u < ws.length := (List.getElem?_eq_some_iff.mp hx).1
         obtain ⟨items1, rs1, hd1, hd2, hd3, hd4⟩ :=
-          rdata_spec P P.sizeMax buf.length tw fut buf acc rfl hle rs ws items _ hrel hitems
+          rdata_spec P P.sizeMax buf.length tw fut buf acc rfl hle rs ws items _ hrel hbound hitems
         have hlen1 : (if tw > 0 then ws.map (· + tw) else ws).length = ws.length := by
           split <;> simp
         have hws1 : ∀ w ∈ (if tw > 0 then ws.map (· + tw) else ws), w ≤ P.sizeMax := by
